@@ -80,8 +80,8 @@ def gen(rng, tier):
                     cases.append(("hs", b"13", "valid", b"Upgrade", b"websocket", hv, pr, ex, dec))
     # ---- closing orders -------------------------------------------------------------------------
     for hv in ("1.1", "2"):
-        for order in ("client_code", "client_nocode", "server", "eof", "reset", "server_then_client_silent"):
-            codes = {"client_code": [1000, 1001, 3000, 4999], "server": [1000, 1001, 3999, 4000]}.get(order, [None])
+        for order in ("client_code", "client_nocode", "server", "eof", "reset", "server_then_client_silent", "client_code_echo_fails"):
+            codes = {"client_code": [1000, 1001, 3000, 4999], "server": [1000, 1001, 3999, 4000], "client_code_echo_fails": [1001, 3000, None]}.get(order, [None])
             for code in codes:
                 for reason in (None, "bye"):
                     if order != "server" and reason:
@@ -145,7 +145,7 @@ def _close_case(rng, n, hv, order, code, reason):
         script = _decision_script(("accept", None, None))
     apps = {"default": script, "websocket": script}
     steps = []
-    if order == "client_code":
+    if order in ("client_code", "client_code_echo_fails"):
         cf = ws.close_frame(code, b"")
     elif order == "client_nocode":
         cf = ws.close_frame(None)
@@ -155,6 +155,8 @@ def _close_case(rng, n, hv, order, code, reason):
         fb = FrameBuilder()
         client = [["feed", _h2_open(fb, path, b"13", None, None)], ["settle"]]
         if cf is not None:
+            if order == "client_code_echo_fails":
+                client += [["fail_write_at", 1]]
             client += [["feed", fb.data(1, cf)], ["settle"]]
         elif order == "server":
             client += [["trigger", "go"], ["settle"], ["feed", fb.data(1, ws.close_frame(code if code is not None else 1000))], ["settle"]]
@@ -171,6 +173,8 @@ def _close_case(rng, n, hv, order, code, reason):
     client = [["feed", ws.handshake(path=path)], ["settle"]]
     rspec = {"kind": "ws", "echo_close": order == "server"}
     if cf is not None:
+        if order == "client_code_echo_fails":
+            client += [["fail_write_at", 1]]  # the client closed first; the server's echo of the close cannot be written any more
         client += [["feed", cf], ["settle"]]
     elif order == "server":
         client += [["trigger", "go"], ["settle"]]
@@ -311,8 +315,9 @@ def check(case, obs, tally):
         return out
     code = discs[0].get("code")
     order = t["order"]
-    if order == "client_code":
-        exp = t["code"]
+    if order in ("client_code", "client_code_echo_fails"):
+        # keyed by who closed first: the client's close frame had been received, whatever happens to the echo
+        exp = t["code"] if t["code"] is not None else 1005
     elif order == "client_nocode":
         exp = 1005
     elif order in ("server", "server_then_client_silent"):
